@@ -1689,7 +1689,7 @@ def d_echo( ctx ):
         lst, k = first
         envelope = { 'sender_context': 'SC', 'session_handle': 'SH', 'command': 'CMD', 'input': 'IN' }
         request = { 'enip': envelope, 'addr': 'ADDR' }
-        env = { dname: { 'request': request }, 'dotdict': lambda *a: dict( *a ), 'cpppo.dotdict': lambda *a: dict( *a ) }
+        env = { dname: { 'request': request }, 'dotdict': lambda *a, **kw: dict( *a, **kw ), 'cpppo.dotdict': lambda *a, **kw: dict( *a, **kw ) }
         for n_, st in enumerate( lst ):
             if n_ < k and not ( isinstance( st, ast.Assign ) and all( isinstance( t, ast.Name ) for t in st.targets )):
                 continue						# before the first store: only the locals it may be made of
